@@ -25,7 +25,8 @@ PID = "C06"
 INVS = ["ProvenanceOK", "OutputOK", "ShapeOK", "TransposeOK", "RepeatOK"]
 SKIP_ARGS = set()      # every float constructor argument is swept, the numerical configuration (dealiasing_fraction, circle_radius) included
 # values used for arguments whose interesting points are not multiples of the default
-SPECIAL_VALUES = {"dealiasing_fraction": (2 / 3, 1.0, 0.5), "circle_radius": (1.0, 1.5, 0.75)}
+SPECIAL_VALUES = {"dealiasing_fraction": (2 / 3, 1.0, 0.5), "circle_radius": (1.0, 1.5, 0.75),
+                  "domain_extent": (6.2832, 2.0, 6.283185307179586)}      # near (not at) 2 pi, generic, exactly 2 pi
 RTOL = 1e-9
 
 
@@ -228,6 +229,7 @@ def run(tier: str, seed: int) -> int:
         sweeps = sweep_args(cls)
         if registry.takes_physical(cls):
             sweeps.append(("dt", None, 0.02))
+            sweeps.append(("domain_extent", None, 2.0))
         vp_progs = [p for p in sel if p[0]["vp"]]
         for ai, (aname, mk, base) in enumerate(sweeps):
             chosen = vp_progs[ai % len(vp_progs):][:1 if tier == "quick" else 4]
@@ -243,6 +245,8 @@ def run(tier: str, seed: int) -> int:
                 def make_p(x, name=name, D=D, N=N, mk=mk, aname=aname, ordr=ordr):
                     if aname == "dt":
                         return registry.make(name, D, N, L=2.0, dt=x, order=ordr)
+                    if aname == "domain_extent":
+                        return registry.make(name, D, N, L=x, dt=0.02, order=ordr)
                     return registry.make(name, D, N, L=2.0, dt=0.02, order=ordr, **mk(x))
                 U = rng.standard_normal((B, C) + (N,) * D) * 0.3
                 key = {"kind": "parameter-sweep", "cls": name, "symbol": aname, "what": f"loop={prog['loop']},vm={prog['vm']}", "order": ordr}
